@@ -12,6 +12,7 @@ Template directives (lines whose first non-blank characters are `//@`):
   //@  rewrite /regex/ => /repl/ [xN]  explicit, logged rewrite; must match exactly N (default 1) times
   //@  sigrewrite /regex/ => /repl/ [xN]   same, signature only
   //@  prologue <ghost text>         proof block inserted right after the body's opening brace (ghost only)
+  //@  execconst <ensures expr>      (const items) emit as `exec const N: T ensures <expr> { E }` (@NAME = the const's name)
   //@  rename <NAME> / valueof <NAME> (const items) emit the const under another name / with its value replaced by NAME
   //@  inject <text>                 (trait/impl/struct) text inserted right after the opening brace
   //@  keepattrs <regex>             keep leading attributes matching regex (default: only #[repr..])
@@ -50,6 +51,11 @@ RULES = {
     # in-extent / alignment precondition that `unsafe` hides.
     'R2': [
         (r'&\s*\*\s*([A-Za-z_]\w*(?:\.\w+(?:::<[^<>()]*(?:<[^<>()]*>)?[^<>()]*>)?\([^()]*\))*)(?![\w\.\[])', r'deref_raw(\1)', '&*ptr_expr -> deref_raw(ptr_expr)'),
+    ],
+    # R2c: `&*(PTR as *const T)` -> deref_raw(PTR.cast::<T>())   (an `as` cast between raw
+    # pointer types and `.cast()` are the same operation)
+    'R2c': [
+        (r'&\s*\*\s*\(\s*([A-Za-z_][\w\.]*)\s+as\s+\*const\s+([A-Za-z_]\w*)\s*\)', r'deref_raw::<\2>(\1.cast::<\2>())', '&*(p as *const T) -> deref_raw::<T>(p.cast::<T>())'),
     ],
     # R2b: `ptr::addr_of!(*self)` / `core::ptr::addr_of!(*self)` -> addr_of_ref(self)
     'R2b': [
@@ -268,6 +274,8 @@ class Assembler:
                 opts['rename'] = b[7:].strip()
             elif b.startswith('valueof '):
                 opts['valueof'] = b[8:].strip()
+            elif b.startswith('execconst '):
+                opts['execconst'] = b[10:].strip()
             elif b.startswith('inject '):
                 opts['inject'].append(raw[raw.index('inject ') + 7:])
             elif b.startswith('keepattrs '):
@@ -361,6 +369,12 @@ class Assembler:
             if opts.get('valueof'):
                 expr = opts['valueof']
             text = m.group(1) + name + m.group(3) + expr + ';'
+            if opts.get('execconst'):
+                # Verus: `exec const N: T ensures P { E }` (value computed in exec mode, P proved)
+                ty = re.match(r'\s*:\s*([^=]+?)=\s*$', m.group(3), flags=re.S).group(1).strip()
+                vis = 'pub ' if not opts['novis'] else ''
+                text = f"{vis}exec const {name}: {ty}\n    ensures {opts['execconst'].replace('@NAME', name)}\n{{ {expr} }}"
+                opts = dict(opts, novis=True)
         if it.kind in ('enum', 'const', 'static', 'type', 'trait') and not opts['novis']:
             text = re.sub(r'^pub(\s*\([^)]*\))?\s+', '', text)
             text = 'pub ' + text
